@@ -25,7 +25,11 @@ HasFwd(op) == op \in {"pipe-ok", "pipe-fail", "pipe-fail-plain"}
 \* the same path received a message from the operator, terminated, and a new actor was spawned under the same name
 \* "after-failed-encode" = just before the operation the operator sent another system a message whose encoding fails
 Hists == {"fresh", "recreated", "after-failed-encode"}
-Cases == {c \in [op : Ops, target : Locs, fwd : Locs \cup {"-"}, flavour : Flavours \cup {"-"}, hist : Hists] :
+\* who performs the operation: an actor through its ActorContext, or the program through the ActorSystem handle (the root
+\* context: its references and the reply addresses of its Asks have no actor segment)
+Bys == {"actor", "system"}
+Cases == {c \in [op : Ops, target : Locs, fwd : Locs \cup {"-"}, flavour : Flavours \cup {"-"}, hist : Hists, by : Bys] :
+            /\ (c.by = "system" => c.op \in {"tell", "ask", "kill", "pkill", "ping", "pipe-ok", "pipe-fail", "pipe-fail-plain"} /\ c.hist = "fresh")
             /\ (HasFwd(c.op) <=> c.fwd # "-")
             /\ (Carries(c.op) <=> c.flavour # "-")
             /\ (c.hist = "recreated" => c.op \in {"tell", "ask", "kill", "ping"} /\ c.flavour \in {"registered", "-"})
